@@ -160,11 +160,14 @@ fn run_mixed(rec: &mut Recorder, w: &mut World, tier: &str, rng: &mut Rng) {
             rec.exec(w, &op.line());
             descr.push(op.line().replace('\t', " "));
             if rng.chance(1, 8) { descr.push(format!("build_role_links -> {}", rec.exec(w, "e.build"))); }
+            // a load that fails (the adapter errs, or fails after delivering a part): every definition gets its own rules back
+            if rng.chance(1, 10) { let f = *rng.pick(&["err", "fail1", "fail3"]); rec.exec(w, &format!("e.fault\t{}", f)); descr.push(format!("load_policy failing ({}) -> {}", f, rec.exec(w, "e.load"))); rec.exec(w, "e.fault\t-"); rec.count("op:failing-load"); }
         }
         if hi % 3 == 0 { descr.push(format!("build_role_links -> {}", rec.exec(w, "e.build"))); }
         let pol = rec.exec(w, "e.pol");
         for l in dec_lists(pol.split(' ').nth(1).unwrap_or("-")) {
-            if l[1] == "g" { g1.add(&l[2], &l[3], &Some(l[4].clone())) } else { g2.add(&l[2], &l[3], &None) }
+            if l.len() < 4 { continue; }
+            if l[1] == "g" { g1.add(&l[2], &l[3], &l.get(4).cloned()) } else { g2.add(&l[2], &l[3], &None) }
         }
         let mut reqs: Vec<Vec<String>> = vec![];
         for s in names { for o in names { for t in doms { reqs.push(sv(&[s, t, o, "read"])); } } }
